@@ -232,6 +232,18 @@ CHECKS = {
         design_ref="DESIGN.md 5 C10",
         note=NOTE_COMMON + " build() is exercised for the full slice range only (windowed lazy build is outside the statement; it currently raises and is noted as growth).",
     ),
+    "C11": dict(
+        text=("TLC explores PotentialCacheImpl - a history machine over Build / SetGpts / SetSampling on three grids with the "
+              "per-element integrator cache remembering the grid it was computed for - to depth 4 (thorough 6) and checks the "
+              "action property that every build yields the fresh potential of the current grid (with the cache keyed by element "
+              "only TLC returns Build; SetGpts; Build).  The emitted histories in which a build follows a grid change after an "
+              "earlier build are replayed on real Potential objects (infinite/finite projection, 1-3 elements, building directly "
+              "and through PlaneWave.multislice); PotentialCacheTrace.tla decides, for every build event, equality with a newly "
+              "constructed potential at the same grid (logged deviation) and that both raise or neither."),
+        technique="TLA+ history machine with an action property (TLC) + spec-generated histories replayed on real potentials + TLC trace validation",
+        design_ref="DESIGN.md 5 C11",
+        note=NOTE_COMMON + " The reference is a fresh abTEM potential (metamorphic oracle); tolerance 2e-5.",
+    ),
 }
 
 NOT_APPLICABLE = {
